@@ -385,6 +385,18 @@ def gen(seed, family=None, knobs=None):
     if len(amap) > max_actions:
         keep = [amap[0]] + rnd.sample(amap[1:], max_actions - 1)
         amap = keep
+    # one-way traffic (appended after the sampling above and drawn from an own stream: older seeds keep the rest of their map): a ping scan
+    # of addresses nobody owns in ANOTHER subnet - the echo requests do leave through the gateway, no reply ever comes back
+    rnd_n = random.Random(f"{seed}-nmap-one-way-traffic")
+    pcs = [x for x in hosts if x.startswith("pc_")]
+    if pcs and rnd_n.random() < 0.6:
+        h = rnd_n.choice(pcs)
+        own = meta_hosts[h]["ip"].rsplit(".", 1)[0]
+        far = [sn[0] for sn in subnets if sn[0] != own]
+        tgt = [(rnd_n.choice(far) if far else "10.99.99") + ".250"]
+        if rnd_n.random() < 0.5:
+            tgt.append("172.31.7.7")
+        amap.append(("node-nmap-ping-scan", {"source_node": h, "target_ip_address": tgt}, "valid"))
 
     # ------------------------------------------------------------------ defender: observation space over everything
     requires_scan = {k: rnd.random() < 0.5 for k in ("file_system", "services", "applications")}
